@@ -490,21 +490,30 @@ func (m *machine) runStep(idx int, s step) (stop bool) {
 		m.emit(obj{"ev": "Buf", "buf": s.Buf, "bytes": s.Bytes})
 
 	case "Unmarshal":
-		mk, ok := zeros[s.Type]
-		if s.Key == "new" {
-			mk, ok = constructors[s.Type]
+		var p any
+		if s.Key == "into" { // decode into the packet the handle already holds
+			p = m.pkts[s.H]
+			if isNilPacket(p) {
+				m.emit(obj{"ev": "Skip", "op": s.Op, "h": s.H, "why": "nil handle"})
+				return true
+			}
+		} else {
+			mk, ok := zeros[s.Type]
+			if s.Key == "new" {
+				mk, ok = constructors[s.Type]
+			}
+			if !ok {
+				fatal("unknown type %q", s.Type)
+			}
+			p = mk()
 		}
-		if !ok {
-			fatal("unknown type %q", s.Type)
-		}
-		p := mk()
 		data := m.bufs[s.Buf]
 		m.steps = 0
 		stepLimit = budgetFor(len(data))
 		err := p.(encoding.BinaryUnmarshaler).UnmarshalBinary(data)
 		stepLimit = 0
 		m.pkts[s.H] = p
-		e := obj{"ev": "Unmarshal", "h": s.H, "type": s.Type, "buf": s.Buf, "data": ints(data), "err": err != nil,
+		e := obj{"ev": "Unmarshal", "h": s.H, "type": typeName(p), "buf": s.Buf, "data": ints(data), "err": err != nil, "into": s.Key == "into",
 			"steps": int(stepCount()), "lens": listLens(p)}
 		m.attachObs(e, s.H, s.NoObs)
 		m.emit(e)
